@@ -13,6 +13,7 @@ ROOT = os.path.dirname(HERE)
 PARAMS = {  # property -> (quick: len, cuts), (thorough: len, cuts)
     "C01": ((4, 1), (5, 2)),
     "C02": ((4, 1), (5, 2)),
+    "C04": ((4, 0), (5, 0)),
     "C06": ((4, 1), (5, 1)),
     "C08": ((3, 1), (4, 1)),
     "C09": ((3, 1), (4, 2)),
@@ -35,8 +36,8 @@ def run(name, repo="/repo", work=None, tier="quick", prop=None, seed=0):
     work = work or os.path.join(ROOT, "build")
     crate = os.path.join(work, "bounded_crate")
     os.makedirs(os.path.join(crate, "src"), exist_ok=True)
-    src = open(os.path.join(ROOT, "bounded", "src", "main.rs")).read()
-    open(os.path.join(crate, "src", "main.rs"), "w").write(src)
+    for fn in os.listdir(os.path.join(ROOT, "bounded", "src")):
+        open(os.path.join(crate, "src", fn), "w").write(open(os.path.join(ROOT, "bounded", "src", fn)).read())
     ct = open(os.path.join(ROOT, "bounded", "Cargo.toml.in")).read().replace("@REPO@", os.path.abspath(repo))
     open(os.path.join(crate, "Cargo.toml"), "w").write(ct)
     lock = os.path.join(repo, "Cargo.lock")
@@ -64,8 +65,15 @@ def run(name, repo="/repo", work=None, tier="quick", prop=None, seed=0):
         # a panic of the real crate on some input is itself a robustness violation, but we cannot name the input here
         return res
     res["cases"] = j["cases"]
-    res["bound"] = f"all strings over the {len(j['alphabet'])}-symbol alphabet {j['alphabet']!r} up to length {j['exhaustive_len']} + {j['seed_documents']} seed documents, every {j['max_cuts']}-cut chunking, 7 handler configurations"
+    if "selectors" not in j:
+      res["bound"] = f"all strings over the {len(j['alphabet'])}-symbol alphabet {j['alphabet']!r} up to length {j['exhaustive_len']} + {j['seed_documents']} seed documents, every {j['max_cuts']}-cut chunking, 7 handler configurations"
     res["violations"] = [dict(what=v["what"], detail=json.dumps(v)) | v for v in j["violations"]]
+    # violations the executor classifies under a known-finding class (reported separately so that they cannot mask others);
+    # `check` prints KNOWN-FINDING only if known_findings.json lists a finding identified by that class, otherwise they are
+    # ordinary violations
+    res["classified"] = {k[len("known_class_"):]: v for k, v in j.items() if k.startswith("known_class_") and v}
+    if "selectors" in j:
+        res["bound"] = f"{j['selectors']} selectors of the generated grammar sample x all tag sequences over {j['alphabet']} up to length {j['exhaustive_len']} + {j['seed_documents']} seed documents (independent tree/selector oracle)"
     res["status"] = "ok" if not j["violations"] else "fail"
     res["time_s"] = round(time.time() - t0, 1)
     return res
